@@ -13,6 +13,8 @@
       findroot_evals_inside_monotone    non-decreasing f, tol>0: no side condition needed
       findroot_converges                L-Lipschitz f: |delta| < tol when L(b-a)/2^n < tol, L conv < tol and the guess
                                         is an end of the bracket or at least conv away from its midpoint
+      findroot_converges_modulus        the general form: every bracket of width <= w has an end within tol, (b-a)/2^n <= w,
+                                        conv <= w, n >= 1 (covers functions flat at the root, where L is far too pessimistic)
       findroot_converges_any_guess_refuted   ... and that last hypothesis cannot be dropped (witness 2x^2-1, guess 1/2)
       findroot_no_worse_strict_refuted  the strict "no worse than the better end" is false (witness x-1/8, tol 1/2)
       findroot_zero_iterations          n = 0 returns the guess *)
@@ -818,6 +820,71 @@ Proof.
 Qed.
 End Lip.
 
+(** ---------------------------------------------------------------- halving reaches the tolerance *)
+(** The general form of "the iteration budget suffices for interval halving to reach the
+    tolerance": every bracket of width <= w inside [a,b] has an end within the tolerance.
+    (An L-Lipschitz f has this for w = tol/L; a function that is flat at its root, like
+    (x-r)^p, has it for a much larger w than its global Lipschitz constant gives.) *)
+Section Mod.
+Variable w : R.
+Hypothesis HW : forall lo hi, a <= lo -> lo <= hi -> hi <= b -> f lo <= 0 -> 0 <= f hi ->
+  hi - lo <= w -> Rmin (Rabs (f lo)) (f hi) < tol.
+
+Lemma EndIt_mod s x' d' lo' dlo' hi' dhi' : SI s -> EndIt s x' d' lo' dlo' hi' dhi' ->
+  hi' - lo' <= w -> Rabs d' < tol.
+Proof.
+  intros (S1 & S2 & S3 & S4 & S5 & S6 & S7 & S8 & S9)
+         (E1 & E2 & E3 & E4 & E5 & E6 & E7 & E8 & E9 & E10 & E11) Hw.
+  assert (H : Rmin (Rabs (f lo')) (f hi') < tol) by (apply HW; lra).
+  assert (Rabs d' <= Rmin (Rabs (f lo')) (f hi')) by (apply Rmin_glb; rewrite <- ?E4, <- ?E5; lra).
+  lra.
+Qed.
+
+Lemma iter_mod s : SI s -> XC s -> conv <= w ->
+  match iter s with
+  | Cont s' => XC s' /\ Post s' /\ smax s' - smin s' <= (smax s - smin s) / 2
+  | Done r => Rabs (rdelta r) < tol
+  end.
+Proof.
+  intros HS HX Hc. pose proof (iter_SI s HS) as H.
+  destruct (iter s) as [r|s1].
+  - destruct H as [H|(lo' & dlo' & hi' & dhi' & HE & Hh)]; auto.
+    apply (EndIt_mod _ _ _ _ _ _ _ HS HE).
+    destruct HE as (E1 & E2 & E3 & E4 & E5 & E6 & E7 & E8 & _).
+    assert (Hle : smin s <= smax s) by (destruct HS; tauto).
+    assert (Hw : (smax s - smin s) / 2 < conv).
+    { unfold XC in HX. rewrite halving_eq in *. destruct HX as [HX|[HX|HX]]; [| |lra]; rewrite HX in Hh.
+      - rewrite Rabs_left1 in Hh by lra. lra.
+      - rewrite Rabs_right in Hh by lra. lra. }
+    lra.
+  - destruct H as (E1 & E2 & E3 & E4 & E5 & E6 & E7 & E8 & E9 & E10 & E11).
+    split; [|split; [split; auto|auto]]. unfold XC. destruct E9 as [[E9 _]|[E9 _]]; auto.
+Qed.
+
+Lemma loop_mod n : forall k s, SI s -> XC s -> conv <= w ->
+  smax s - smin s <= (b - a) / 2 ^ k -> (Post s \/ (1 <= n)%nat) ->
+  (b - a) / 2 ^ (k + n) <= w ->
+  Rabs (rdelta (loop n s)) < tol.
+Proof.
+  induction n as [|n IH]; intros k s HS HX Hc Hw HP Hn; simpl.
+  - rewrite Nat.add_0_r in Hn. destruct HP as [[P1 P2]|HP]; [|lia].
+    destruct HS as (S1 & S2 & S3 & S4 & S5 & S6 & S7 & S8 & S9).
+    assert (H : Rmin (Rabs (f (smin s))) (f (smax s)) < tol) by (apply HW; lra).
+    assert (Rabs (sd s) <= Rmin (Rabs (f (smin s))) (f (smax s)))
+      by (apply Rmin_glb; rewrite <- ?S4, <- ?S5; lra).
+    lra.
+  - pose proof (iter_mod s HS HX Hc) as H.
+    destruct (iter s) as [r|s1] eqn:E; auto.
+    destruct H as (X1 & P1 & W1).
+    assert (Hp : 0 < 2 ^ k) by (apply pow_lt; lra).
+    assert (Hw1 : smax s1 - smin s1 <= (b - a) / 2 ^ S k).
+    { replace ((b - a) / 2 ^ S k) with ((b - a) / 2 ^ k / 2) by (simpl; field; lra). lra. }
+    apply (IH (S k)); auto.
+    + eapply iter_Cont_SI; eauto.
+    + replace (S k + n)%nat with (k + S n)%nat by lia. exact Hn.
+Qed.
+End Mod.
+
 End AB.
 End P.
 
@@ -967,6 +1034,22 @@ Proof.
   - unfold XC. rewrite init_halving. simpl. exact Hg.
   - simpl. lra.
   - apply init_lip; auto.
+Qed.
+(** the same with the general "halving reaches the tolerance" hypothesis: every bracket of
+    width <= w has an end within the tolerance, and n halvings bring (b-a) below w *)
+Theorem findroot_converges_modulus : forall w,
+  (forall lo hi, a <= lo -> lo <= hi -> hi <= b -> f lo <= 0 -> 0 <= f hi ->
+                 hi - lo <= w -> Rmin (Rabs (f lo)) (f hi) < tol) ->
+  a <= x0 <= b -> f a <= 0 <= f b ->
+  (x0 = a \/ x0 = b \/ conv <= Rabs (x0 - (a + b) / 2)) ->
+  conv <= w -> (b - a) / 2 ^ n <= w -> (1 <= n)%nat ->
+  exists r, FR = Some r /\ Rabs (rdelta r) < tol.
+Proof.
+  intros w HW Hx Hs Hg Hc Hn H1. eexists. split; [apply find_root_some; auto|].
+  apply loop_mod with (a := a) (b := b) (w := w) (k := O); auto.
+  - apply init_SI; auto.
+  - unfold XC. rewrite init_halving. simpl. exact Hg.
+  - simpl. lra.
 Qed.
 End Final.
 
